@@ -1663,7 +1663,7 @@ def sig_check(prop, tier):
         run.traces += len(tva["accepted"])
         run.states += tva["states"]
         run.transitions += tva["transitions"]
-        if sum(1 for e in aevs if e["ev"] == "AsyncPair") < 81:
+        if sum(1 for e in aevs if e["ev"] == "AsyncPair") < 121:
             raise ToolError("vacuity guard: async pairs did not run")
         for sid, ev1 in aper:
             e = ev1[0]
@@ -1716,6 +1716,9 @@ def sig_check(prop, tier):
     if prop == "C10":
         # stub bytes + native result through the placement driver (both values, straddling entries, low/high addresses)
         pscen = [sc for sc in placement_scenarios(tier) if sc.get("flavour") == "bool"]
+        # ... and targets with unusual first instructions (landing pad, padding, forwarding thunks whose destination was never
+        # named, a function that keeps state on its own page)
+        pscen += [sc for sc in prologue_scenarios() if sc.get("flavour") == "bool"]
         for k, sc in enumerate(pscen, 1):
             sc["id"] = k
         pg, po, _ = vlib.run_harness("placement", pscen, "placement_C10", timeout=3000)
